@@ -11,7 +11,7 @@
                         sub-stream ever made holds the parent's thermal-condition object
      good s             well-formed heap/rows/snapshots; MultiStreams never have exactly one phase
      has_rows s         a MultiStream has at least one phase (phases = () on an empty stream gives none) *)
-From V Require Import Common.NumFacts C12.Model C12.Proofs.
+From V Require Import Common.NumFacts C12.Model C12.Proofs C12.ProofsDeep.
 
 (* ---- totals, T, P ---- *)
 (* every conversion, the relabelling Stream accessors included *)
@@ -255,3 +255,115 @@ Proof.
   - intros p j R. destruct p; try (vm_compute in R; discriminate); exact (nthq_vzero 3 j).
   - intros H. specialize (H Pl 0%nat eq_refl). vm_compute in H. discriminate.
 Qed.
+
+(* ================= deepening round ================= *)
+(* [good1 s]: well-formed state whose snapshots have the get_data shape; NO restriction on the number of phases of
+   a MultiStream (one-phase MultiStreams and MultiStream.from_streams of one stream included) *)
+
+(* set_data of any get_data snapshot is exact; the class comes back unless the snapshot is of a one-phase
+   MultiStream, which returns as a Stream of that phase *)
+Theorem C12_restore_exact_any : forall s d s',
+  wf s -> sdwf (nch s) d -> sd_ok d -> restore s d = Ok s' ->
+  wf s' /\ nch s' = nch s /\ saved s' = saved s /\
+  T_of s' = sd_T d /\ P_of s' = sd_P d /\
+  is_multi s' = negb (isSome (sd_single d)) && negb (Nat.eqb (pset_card (sd_t d)) 1) /\
+  (forall p, pset_now s' p = isSome (sd_rows d p)) /\
+  (forall p, flow s' p = match sd_rows d p with Some v => v | None => vzero (nch s) end).
+Proof. exact restore_exact_any. Qed.
+Print Assumptions C12_restore_exact_any.
+
+Theorem C12_data_roundtrip_any : forall s0 ops s s',
+  good1 s0 ->
+  run (set_saved s0 (saved s0 ++ [snapshot s0])) ops = Ok s ->
+  step s (ORestore (length (saved s0))) = Ok s' ->
+  (forall p, pset_now s' p = pset_now s0 p) /\ (forall p, flow s' p = flow s0 p) /\
+  T_of s' = T_of s0 /\ P_of s' = P_of s0 /\
+  is_multi s' = is_multi s0 && negb (Nat.eqb (pset_card (pset_now s0)) 1).
+Proof. exact data_roundtrip_any. Qed.
+Print Assumptions C12_data_roundtrip_any.
+
+Theorem C12_restore_never_raises_any : forall s0 ops s k,
+  good1 s0 -> run s0 ops = Ok s -> (k < length (saved s))%nat -> has_rows s ->
+  exists s', step s (ORestore k) = Ok s'.
+Proof. exact restore_never_raises_any. Qed.
+Print Assumptions C12_restore_never_raises_any.
+
+Theorem C12_from_streams_any_count : forall n mw ss s,
+  from_streams n mw ss = Ok s -> Forall (fun x => length (ss_flow x) = n) ss -> good1 s /\ has_rows s.
+Proof. exact from_streams_good1. Qed.
+Print Assumptions C12_from_streams_any_count.
+
+(* a one-stream from_streams result (a one-phase MultiStream): saved, mutated into three phases, restored *)
+Example C12_ex_onephase_roundtrip :
+  match from_streams 3 [16; 32; 8] [mkss Ps [1; 0; 2] 300 101325 false] with
+  | Ok s0 => pset_card (pset_now s0) = 1%nat /\ is_multi s0 = true /\
+      match run s0 [OSave; OSetPhases [Ps; Pg; Pl] false; OWriteParent Pg 1 5; OSetT 400; ORestore 0] with
+      | Ok s => is_multi s = false /\ phases_of s = [Ps] /\ flow s Ps = [1; 0; 2] /\ T_of s = 300
+      | Err _ => False
+      end
+  | Err _ => False
+  end.
+Proof. vm_compute. repeat split; reflexivity. Qed.
+
+(* detached sub-streams: along EVERY history, a view object that is no longer in _streams points at an existing
+   row object that the stream does not hold any more *)
+Theorem C12_detached_views_alias_discarded_rows : forall ops s s',
+  good1 s -> det_inv s -> run s ops = Ok s' -> det_inv s'.
+Proof. exact run_det. Qed.
+Print Assumptions C12_detached_views_alias_discarded_rows.
+
+(* at the collapse to one phase a cached sub-stream keeps the row object of the discarded indexer, still holding
+   its phase's flows as they were; the new single-phase data is a different object *)
+Theorem C12_collapse_keeps_row : forall s p s',
+  wf s -> live_inv s -> is_multi s = true -> to_single s p = Ok s' ->
+  is_multi s' = false /\
+  forall i v, nth_error (views s) i = Some v -> vin v = true ->
+    exists q, resolve (pset_now s) (vlabel v) = Some q /\
+      nth_error (views s') i = Some (uncache v) /\
+      cellv (heap s') (vcell v) = flow s q /\ ~ owns s' (vcell v).
+Proof. exact collapse_keeps_row. Qed.
+Print Assumptions C12_collapse_keeps_row.
+
+(* consequently writes through a detached sub-stream never reach the stream, and writes through the stream never
+   reach a detached sub-stream: it is an independent frozen copy, not a stale alias of live data *)
+Theorem C12_detached_write_isolated : forall s i j x s' v,
+  det_inv s -> nth_error (views s) i = Some v -> vin v = false ->
+  step s (OWriteView i j x) = Ok s' -> forall p, flow s' p = flow s p.
+Proof. exact detached_write_isolated. Qed.
+Print Assumptions C12_detached_write_isolated.
+
+Theorem C12_detached_unaffected_by_parent_write : forall s l j x s' v,
+  det_inv s -> In v (views s) -> vin v = false ->
+  step s (OWriteParent l j x) = Ok s' -> cellv (heap s') (vcell v) = cellv (heap s) (vcell v).
+Proof. exact detached_unaffected_by_parent_write. Qed.
+Print Assumptions C12_detached_unaffected_by_parent_write.
+
+(* reachable: a view taken, the stream collapsed (view detached), re-expanded, written on both sides *)
+Example C12_ex_detached :
+  good1 ex0 /\ det_inv ex0 /\
+  match run ex0 [OAcc AVle; OView Pl; OSetPhase [Pl]; OSetPhases [Pg; Pl] false; OWriteParent Pl 0 7; OWriteView 0 1 9] with
+  | Ok s => map vin (views s) = [false] /\ flow s Pl = [7; 0; 2] /\
+            map (fun v => cellv (heap s) (vcell v)) (views s) = [[1; 9; 2]]
+  | Err _ => False
+  end.
+Proof.
+  split; [|split].
+  - split; [apply (init_single_good 3 [16; 32; 8] Pl [1; 0; 2] 300 101325 eq_refl)|constructor].
+  - intros v [].
+  - vm_compute. repeat split; reflexivity.
+Qed.
+
+(* every operation other than a write through a view (and set_data) leaves every existing row object that the
+   stream does not hold exactly as it was: a detached sub-stream goes on reading the frozen row it kept *)
+Theorem C12_detached_rows_frozen : forall s o s',
+  view_write o = false -> step s o = Ok s' ->
+  forall c, (c < length (heap s))%nat -> ~ owns s c -> cellv (heap s') c = cellv (heap s) c.
+Proof. exact frozen_step. Qed.
+Print Assumptions C12_detached_rows_frozen.
+
+Example C12_ex_frozen :
+  match run ex0 [OAcc AVle; OView Pl; OSetPhase [Pl]] with
+  | Ok s => exists c, (c < length (heap s))%nat /\ ~ owns s c /\ map vcell (views s) = [c] /\ map vin (views s) = [false]
+  | Err _ => False
+  end.
+Proof. vm_compute. exists 2%nat. repeat split; try reflexivity; try lia; try discriminate. Qed.
